@@ -689,11 +689,72 @@ def respelled_docs():
     return out
 
 
+def roundtrip_tie(ctx: Ctx, res: Result, n: int):
+    """Theorem-driven tie for `C03_roundtrip` (Props/C03Roundtrip.lean): random document MODELS (feature, tags, scenarios,
+    steps; any dialect; names and texts from a pool with Gherkin-looking and exotic content) are rendered BY THE LEAN
+    RENDERER; wherever the model is well formed (`Spec.WF`, evaluated by the driver) the theorem says the parse of the
+    rendered text returns `Spec.expectedDoc` — the implementation must return exactly that document (ids, locations,
+    keyword types included), in both error modes."""
+    rng = ctx.rng
+    D = impl.dialects()
+    names = sorted(D)
+    texts = ["", "a", "the user logs in", "x  y", "Given a", "Feature: x", "@tag", "# no comment", "| cell |", '"""', "```", "<a> b", "é😀", "a\u00a0b", "a\tb",
+             "x:", ": x", "*", "* x", "And", "Examples:", "a\\nb", "{0} %s ${x}", "ends with colon:", "\u3000x", "x\u2028y", "\x0bv", "trailing ", " leading", "a\nb"]
+    tagpool = ["@a", "@wip", "@b#c", "@é", "@a-b_c.1", "@x:y", "@|", "@a b", "@a@b", "@", "@😀", "@\u00a0"]
+    reqs, models = [], []
+    for _ in range(n):
+        dn = rng.choice(names) if rng.random() < 0.7 else "en"
+        d = D[dn]
+        steps_kw = d["given"] + d["when"] + d["then"] + d["and"] + d["but"]
+
+        clean = [t for t in texts if t == t.strip() and "\n" not in t]
+
+        def txt():
+            r_ = rng.random()
+            return rng.choice(clean) if r_ < 0.9 else rng.choice(texts) if r_ < 0.95 else rng.choice(clean) + " " + rng.choice(steps_kw + d["scenario"]).strip()
+
+        def tags():
+            return [rng.choice(tagpool[:7] if rng.random() < 0.93 else tagpool) for _ in range(rng.choice([0, 0, 1, 2, 3]))]
+        ft, fk, fn = tags(), rng.choice(d["feature"] if rng.random() < 0.97 else d["scenario"]), txt()
+        scs = []
+        for _ in range(rng.choice([0, 1, 1, 2, 3, 5])):
+            st = [(rng.choice(steps_kw) if rng.random() < 0.97 else rng.choice(steps_kw).strip(), txt()) for _ in range(rng.choice([0, 1, 2, 3, 4]))]
+            scs.append((tags(), rng.choice(d["scenario"] + d["scenarioOutline"]), txt(), st))
+        args = [dn, "".join(t + "\0" for t in ft), fk, fn]
+        for t_, k_, n_, st in scs:
+            args += ["".join(t + "\0" for t in t_), k_, n_, "".join(k + "\0" + x + "\0" for k, x in st)]
+        if any("\0" in x for x in [fk, fn] + [y for t_, k_, n_, st in scs for y in [k_, n_] + [z for p in st for z in p]]):
+            continue
+        reqs.append(driver.request("render", *args))
+        models.append((dn, ft, fk, fn, scs))
+    outs = driver.batch(reqs) if reqs else []
+    n_wf = 0
+    for mdl, m_ in zip(models, outs):
+        if "crash" in m_ or not m_.get("wf"):
+            res.stats["roundtrip_models_not_wf"] += 1
+            continue
+        n_wf += 1
+        text = m_["text"]
+        if impl.is_existing_path(text):
+            continue
+        for stop_ in (False, True):
+            i_ = impl.parse(text, stop_, mdl[0])
+            got = i_.get("ok", {k_: v_ for k_, v_ in i_.items() if k_ in ("errors", "crash")})
+            res.note({"model": mdl, "rendered": text, "stop": stop_}, True)
+            if got != m_["expected"] or i_.get("ids") != m_["idsAfter"]:
+                res.fail("roundtrip", {"source": text, "stop": stop_, "default_dialect": mdl[0], "model": mdl}, got, m_["expected"],
+                         "C03_roundtrip: the model is well formed, so the parse of its rendering must return exactly the expected document "
+                         "(every element once, in order, exact keyword / name / text / location / id): " + str(first_diff(got, m_["expected"])))
+    res.stats["roundtrip_models_wf"] = n_wf
+
+
 def run_C03(ctx: Ctx) -> Result:
     docs = streams.corpus_docs() + streams.doc_mix(ctx.rng, ctx.n(2500, 25000), noisy=0.05, mutated=0.1)
     rd = respelled_docs()
     docs += rd if ctx.thorough else rd[:: 2]
-    return streams.parse_stream(docs, proj_ast_text, modes=(False,), nontrivial=lambda i: "ok" in i)
+    res = streams.parse_stream(docs, proj_ast_text, modes=(False,), nontrivial=lambda i: "ok" in i)
+    roundtrip_tie(ctx, res, ctx.n(600, 6000))
+    return res
 
 
 def slice_check(src, o):
@@ -1277,6 +1338,21 @@ def run_C14(ctx: Ctx) -> Result:
         ls_ = d_.split("\n")
         phys = [x + "\n" for x in ls_[:-1]] + ([ls_[-1]] if ls_[-1] else [])
         with_ = impl.parse(d_, False)
+        for k_ in m_.get("stop", [])[:1]:
+            # C14_unexpected_line_stop_check: in stop mode the run ends AT that line with exactly this error
+            if k_ < len(phys):
+                st_o = impl.parse(d_, True)
+                u_ = phys[k_]
+                ind_ = len(u_) - len(u_.lstrip())
+                es_ = st_o.get("errors", [])
+                res.stats["theorem_driven_stop_mode_unexpected"] += 1
+                if not (len(es_) == 1 and st_o.get("composite") is False and es_[0]["type"] == "UnexpectedTokenException"
+                        and es_[0]["location"] == {"line": k_ + 1, "column": ind_ + 1}
+                        and es_[0]["message"].startswith(f"({k_ + 1}:{ind_ + 1}): expected: ") and es_[0]["message"].endswith(f", got '{u_.strip()}'")):
+                    res.fail("recover", {"source": d_, "stop": True, "default_dialect": "en", "unexpected_line": k_ + 1}, es_,
+                             {"line": k_ + 1, "column": ind_ + 1}, "C14_unexpected_line_stop_check applies to this line but the stop-mode parse is not rejected with "
+                             "exactly one unexpected-token error at that line")
+        res.stats["theorem_driven_skippable_only_by_exact_condition"] += len(set(m_.get("skippable", [])) - set(m_.get("skippable1", [])))
         for k_ in m_.get("skippable", [])[:6]:
             if k_ >= len(phys) or (k_ == len(phys) - 1 and not phys[k_].endswith("\n") and k_ > 0 and False):
                 continue
@@ -2422,7 +2498,7 @@ PROPS = {
                 rule=GEN_RULE + "plus Unicode soup with surrogates/NUL and all strings ≤ L over a 10-symbol alphabet; non-trivial = any input"),
     "C02": dict(modules=["C02", "C02Tree", "C02Text", "C02Siblings"], run=run_C02, translators=["parser_table", "grammar", "siblings"], exhaustive=True,
                 rule="all line-kind sequences up to length L through the real Parser (stub matcher) vs the grammar reading (Spec.Sentence) and the table model's events; sampled longer ones; real-text documents; non-trivial = accepted"),
-    "C03": dict(modules=["C03", "C03Tree", "C03Parse", "C03Doc", "C03Fields"], run=run_C03, translators=["parser_table", "dialects"], rule=GEN_RULE + "non-trivial = accepted document"),
+    "C03": dict(modules=["C03", "C03Tree", "C03Parse", "C03Doc", "C03Fields", "C03Roundtrip"], run=run_C03, translators=["parser_table", "dialects"], rule=GEN_RULE + "non-trivial = accepted document"),
     "C04": dict(modules=["C04", "C03Doc"], run=run_C04, translators=["parser_table", "dialects"], rule=GEN_RULE + "plus all rows/tag lines ≤ L over the distinguishing classes; non-trivial = any"),
     "C05": dict(modules=["C05", "C03Doc"], run=run_C05, translators=["dialects", "dialects_master"], exhaustive=True,
                 rule="complete enumeration dialect × keyword × role × layout through the real matcher; header spellings; one generated document per dialect; non-trivial = matched"),
@@ -2437,13 +2513,13 @@ PROPS = {
     "C12": dict(modules=["C12", "C12Doc"], run=run_C12, translators=["parser_table"], exhaustive=True,
                 rule="every row string ≤ L over {|, \\, n, space, tab, other} plus Unicode rows; generated ragged/rectangular tables; non-trivial = at least one cell"),
     "C13": dict(modules=["C13", "C03Doc"], run=run_C13, translators=["parser_table"], rule="doc strings with content lines from every Gherkin-looking kind, both delimiters, all indentation relations; matcher in the content state; non-trivial = accepted"),
-    "C14": dict(modules=["C14", "C14Stop", "C14Recover"], run=run_C14, translators=["parser_table"], exhaustive=True,
+    "C14": dict(modules=["C14", "C14Stop", "C14Recover", "C14Recover2"], run=run_C14, translators=["parser_table"], exhaustive=True,
                 rule=GEN_RULE + "both error modes; all line-kind sequences ≤ L for error positions; non-trivial = rejected"),
     "C15": dict(modules=["C15"], run=run_C15, exhaustive=True,
                 rule="all ordered pairs (thorough: triples) of 12 state-perturbing documents through one Parser+TokenMatcher, sampled longer histories, random schedules of 2–3 concurrent parses gated at TokenScanner.read; non-trivial = any"),
     "C16": dict(modules=["C16", "C16Doc", "C16Doc2", "C16Doc3", "C16Doc3Tie", "C16Doc4", "C16Doc5", "C16Doc6", "C16Doc7"], run=run_C16, rule=GEN_RULE + "× {CRLF, final newline, trailing blanks, indentation, blank line, comment line} at sampled admissible positions; file loading; non-trivial = any"),
     "C17": dict(modules=["C17", "C17Stop"], run=run_C17, rule="sequences of 1–3 sources × 8 option combinations through one GherkinEvents; non-trivial = at least one envelope"),
-    "C18": dict(modules=["C18", "C18Order", "C18Pure", "C18Listing"], run=run_C18, translators=["parser_table"], exhaustive=True,
+    "C18": dict(modules=["C18", "C18Order", "C18Pure", "C18Listing", "C18AnyRun"], run=run_C18, translators=["parser_table"], exhaustive=True,
                 rule="all tag/comment/blank runs ≤ L before Examples/Scenario/Rule/unexpected lines as real text, sampled longer arrangements, corpus token listings; non-trivial = any"),
     "C19": dict(modules=["C19"], run=run_C19, translators=["dialects"], exhaustive=True,
                 rule="complete enumeration dialect × keyword × header depth 0–7 / bullet × indentation through the real Markdown matcher; table indentation 0–8; tag lines; non-trivial = matched"),
